@@ -37,6 +37,25 @@ theorem escapeText_no : ∀ (t : Bytes), ∀ x ∈ escapeText t, x ≠ cLt
         | true => rw [escapeTextByte_special hs] at hx; exact (escapeByte_no c x hx).1
     · exact escapeText_no cs x hx
 
+/-- text as the serialiser writes it contains no `>` either (`escape` writes `&gt;`): it never holds `]]>` -/
+theorem escapeText_noGt : ∀ (t : Bytes), ∀ x ∈ escapeText t, x ≠ cGt
+  | [], x, hx => by simp [escapeText_nil] at hx
+  | c :: cs, x, hx => by
+    rw [escapeText_cons, List.mem_append] at hx
+    rcases hx with hx | hx
+    · by_cases hcr : c = 13
+      · subst hcr; rw [escapeTextByte_cr] at hx; revert x; decide
+      · cases hs : isSpecial c with
+        | false =>
+          rw [escapeTextByte_plain hs hcr, List.mem_singleton] at hx
+          subst hx
+          intro h; subst h; simp [isSpecial] at hs
+        | true =>
+          rw [escapeTextByte_special hs] at hx
+          simp only [isSpecial, Bool.or_eq_true, decide_eq_true_eq] at hs
+          rcases hs with (((h | h) | h) | h) | h <;> subst h <;> revert x <;> decide
+    · exact escapeText_noGt cs x hx
+
 theorem goodRest_nsAttr (ns : Option Bytes) : GoodRest (nsAttr ns) := by
   rw [nsAttr_eq]
   cases ns with
@@ -81,7 +100,7 @@ theorem WN_textEv (st : List Bytes) (hst : st ≠ []) (x : Bytes) (t : List Ev) 
   · simpa using ht
   · rename_i hne
     simp only [List.cons_append, List.nil_append, WN]
-    exact ⟨Or.inl hst, hne, escapeText_no x, hh, ht⟩
+    exact ⟨⟨Or.inl hst, hasCdataEnd_of_noGt _ (escapeText_noGt x)⟩, hne, escapeText_no x, hh, ht⟩
 
 theorem WN_elem (st : List Bytes) (tag : Bytes) (inner t : List Ev) (hg : goodName tag = true)
     (hi : WN (tag :: st) (inner ++ .stop tag :: t)) : WN st (elem tag inner ++ t) := by
